@@ -702,14 +702,23 @@ func c14Adapter(r *core.Run) {
 			if !ok || !core.IsNamed(fa.X.Type(), sp, "Config") || core.FieldName(fa.X.Type(), fa.Field) != "Mounts" {
 				return
 			}
-			if u, isLoad := st.Val.(*ssa.UnOp); isLoad && u.Op == token.MUL {
+			if u, isLoad := core.Unwrap(st.Val).(*ssa.UnOp); isLoad && u.Op == token.MUL {
 				list = u.X
 			}
 		})
 		if list == nil {
 			continue
 		}
-		for _, g := range core.Nest(top) {
+		// the list is a local variable (appended to by the function or its closures) or a field of a collector
+		// struct (appended to by the struct's methods)
+		listField := ""
+		scope := core.Nest(top)
+		if fa, isFA := list.(*ssa.FieldAddr); isFA {
+			listField = core.Deref(fa.X.Type()).String() + "." + core.FieldName(fa.X.Type(), fa.Field)
+			scope = p.FuncsIn("internal/cli")
+		}
+		for _, g := range scope {
+			g := g
 			core.InstrsOf(g, func(in ssa.Instruction) {
 				st, ok := in.(*ssa.Store)
 				if !ok {
@@ -719,7 +728,12 @@ func c14Adapter(r *core.Run) {
 				if fv, isFV := target.(*ssa.FreeVar); isFV {
 					target = core.BindingOf(fv)
 				}
-				if target != list {
+				if listField != "" {
+					fa, isFA := target.(*ssa.FieldAddr)
+					if !isFA || core.Deref(fa.X.Type()).String()+"."+core.FieldName(fa.X.Type(), fa.Field) != listField {
+						return
+					}
+				} else if target != list {
 					return
 				}
 				app, isApp := isBuiltinCall(st.Val, "append")
